@@ -102,8 +102,7 @@ def static_file(filename, root, mimetype='auto', download=False, charset='UTF-8'
     headers['Last-Modified'] = email.utils.formatdate(stats.st_mtime, usegmt=True)
 
     ims = env_get('HTTP_IF_MODIFIED_SINCE')
-    if ims:
-        ims = parse_date(ims.split(";")[0].strip())
+    ims = parse_date(ims.split(";")[0].strip()) if ims else None
     if ims is not None and ims >= int(stats.st_mtime):
         headers['Date'] = email.utils.formatdate(time.time(), usegmt=True)
         return HTTPResponse(status=304, **headers)
